@@ -254,6 +254,9 @@ def process_spec(job):
   nontriv = bool(feats - {'float', 'custom'})
   for f in feats or {'plain'}: ctx.hist('spec_features', f)
   ctx.hist('spec_origin', origin); ctx.hist('spec_points', G.count_points(s))
+  _ids = [dp.id.path for dp in pg.decision_points]
+  ctx.hist('hypothesis:ids_unique (C12_dict_roundtrip_partial)', len(set(_ids)) == len(_ids))
+  ctx.hist('hypothesis:literals_distinct', view_ok(s, 'id', 'literal'))
   casej = lambda **kw: dict(spec=s, **kw)
   # (17) decision points, their ids and names
   infos = []
